@@ -32,7 +32,7 @@ ASSUMPTIONS = [
 ]
 BOUNDS = {
     "quick": {"two_tasks_L": 2, "three_tasks_L": 1},
-    "thorough": {"two_tasks_L": 3, "three_tasks_L": 2},
+    "thorough": {"two_tasks_L": 3, "three_tasks_L": 2, "note": "3 tasks with L=2 over {sync scope, update} only"},
 }
 EXHAUSTIVE = {"quick": True, "thorough": True}
 SAMPLE_EVERY = {"quick": 9000, "thorough": 300000}
@@ -83,8 +83,22 @@ def programs(tier: str):
             for pos in range(len(root) + 1):
                 for how in ("spawn", "create"):
                     yield {"scripts": [root, child], "starts": [[0, pos, how]]}
-    s3 = scripts(b["three_tasks_L"])
-    s3p = scripts(b["three_tasks_L"], with_prepared=True)
+    s3 = scripts(1)
+    s3p = scripts(1, with_prepared=True)
+    if b["three_tasks_L"] >= 2:
+        # three tasks with longer scripts: blocks restricted to {sync scope [A], update [A]}
+        small = [sc for sc in scripts(2) if all(op in (-1, 0, 1) for op in sc)]
+        for root in small:
+            for c1 in small:
+                for c2 in small:
+                    for starter2 in (0, 1):
+                        n = len(root) if starter2 == 0 else len(c1)
+                        for pos1 in range(len(root) + 1):
+                            for pos2 in range(n + 1):
+                                yield {
+                                    "scripts": [root, c1, c2],
+                                    "starts": [[0, pos1, "create" if (pos1 + pos2) % 2 else "spawn"], [starter2, pos2, "spawn" if (pos1 + pos2) % 2 else "create"]],
+                                }
     for root in s3:
         for c1 in s3p:
             for c2 in s3:
